@@ -407,7 +407,8 @@ def run_property(modname, tier, seed, only_subs=None, procs=None):
     vio_list = []
     for sig, v in sorted(violations.items()):
         h = hashlib.blake2b(json.dumps([v["check"], v["case"]], sort_keys=True).encode(), digest_size=6).hexdigest()
-        d = os.path.join(VERIF_DIR, "replays", pid)
+        # runs against a scratch copy (sensitivity tools) keep their replay files inside that copy, which is removed afterwards
+        d = os.path.join(VERIF_DIR, "replays", pid) if REPO == "/repo" else os.path.join(REPO, ".verif-replays", pid)
         os.makedirs(d, exist_ok=True)
         path = os.path.join(d, "%s.json" % h)
         with open(path, "w") as f:
